@@ -124,23 +124,43 @@ def roles(fx):
     return R
 
 
+def _const_refs(fx, root):
+    """Named constants (def path -> type) referenced by a function, its nested items and closures."""
+    out = {}
+
+    def walk(node):
+        if isinstance(node, dict):
+            if 'def' in node and 'ty' in node and 'promoted' not in node and 'fn' not in node and isinstance(node.get('def'), str):
+                if fx.consts.get(node['def']) is not None:
+                    out[node['def']] = node['ty']
+            for v in node.values():
+                walk(v)
+        elif isinstance(node, list):
+            for v in node:
+                walk(v)
+    for p, f in fx.fns.items():
+        if (p == root or p.startswith(root + '::')) and 'mir' in f:
+            walk(f['mir']['blocks'])
+    return out
+
+
 def _bls_consts(fx, fe):
-    x = neg = None
-    b = fx.body(fe) if fe else None
-    if b is None:
+    """|x| is the u64 constant used by BOTH the final exponentiation and the Miller loop / line-coefficient
+    schedule; its sign is the bool constant they share (derived constants such as x/2 are used by one only)."""
+    if not fe:
         return None, None
-    bodies = [b] + [fx.body(p) for p in fx.fns if p.startswith(fe + '::') and fx.body(p) is not None]
-    for bb in bodies:
-        for blk in bb.blocks:
-            for s in blk['stmts']:
-                if s['k'] == 'assign' and s['rv']['k'] == 'use' and s['rv']['op'][0] == 'k':
-                    c = s['rv']['op'][1]
-                    if 'def' in c and 'promoted' not in c:
-                        if c.get('ty') == 'u64' and x is None:
-                            x = c['def']
-                        if c.get('ty') == 'bool' and neg is None and fx.consts.get(c['def']) is not None:
-                            neg = c['def']
-            t = blk['term']
-            if t['k'] == 'switch' and t['discr'][0] == 'k' and 'def' in t['discr'][1] and t['discr'][1].get('ty') == 'bool':
-                neg = neg or t['discr'][1]['def']
-    return x, neg
+    a = _const_refs(fx, fe)
+    ml = fx.impl_method('Engine', 'bls12_381::Bls12', 'miller_loop')
+    b = _const_refs(fx, ml) if ml else {}
+    x = sorted(k for k, ty in a.items() if ty == 'u64' and b.get(k) == 'u64')
+    neg = sorted(k for k, ty in a.items() if ty == 'bool' and b.get(k) == 'bool')
+    if len(x) != 1:
+        x = sorted(k for k, ty in a.items() if ty == 'u64')
+        if len(x) > 1:
+            # derived constants (x/2, ...) next to x itself: x is the one the others are not larger than
+            vals = {k: (fx.consts.get(k) or {}).get('v') for k in x}
+            if all(isinstance(v, int) for v in vals.values()):
+                x = [max(x, key=lambda k: vals[k])]
+    if len(neg) != 1:
+        neg = sorted(k for k, ty in a.items() if ty == 'bool')
+    return (x[0] if len(x) == 1 else None), (neg[0] if len(neg) == 1 else None)
